@@ -99,6 +99,15 @@ theorem tie_log_tags :
     Generated.C04.deleteReferenceFileApply = ["version.DeleteReferenceFile"] := by
   decide
 
+/-- The theorems below describe ONE merge job. Jobs of different families run concurrently
+(`Store.ForceRollup` and the compaction timer start one goroutine per family), so they carry over to
+the product only if the jobs share no scratch state: no package-level variable reachable from
+`DownSamplingMultiSeriesInto` or from the metric data merger is used other than as a `sync.Pool` or as
+the read-only source of a `copy` (regenerated from the source on every run). -/
+theorem merge_jobs_share_no_scratch_state :
+    ∀ e ∈ Generated.C04.mergeJobPackageVars, e.2.2 ≠ "shared" := by
+  decide
+
 /-! ## slot placement -/
 
 /-- day-type source, month-type target (`tgt ∣ 1h`). `D` = day number of the source segment,
